@@ -7,6 +7,7 @@ expression or macro is ever skipped silently.  The only constructs dropped on pu
 function's summary (`dropped`).
 """
 import json
+import re
 from rsparse import RsError, FileIndex, Parser, Tok, lex, split_macro_args, INT_SUFFIXES
 
 UMAX = {"u8": "Rs.U8_MAX", "u16": "Rs.U16_MAX", "u32": "Rs.U32_MAX", "u64": "Rs.U64_MAX", "u128": "Rs.U128_MAX",
@@ -329,6 +330,7 @@ class FnTranslator:
         self.impl = f["impl"]
         self.n = 0
         self.exts = []       # external function parameters: (lean name, lean type string)
+        self.ext_opaques = []  # opaque types that occur only in the types of externals (become type parameters)
         self.dropped = []
         self.needs_deq = []
         self.local_consts = {}
@@ -338,9 +340,11 @@ class FnTranslator:
         self.n += 1
         return "%s_%d" % (base, self.n)
 
-    def add_ext(self, name, ty):
+    def add_ext(self, name, ty, ops=()):
         if (name, ty) not in self.exts:
             self.exts.append((name, ty))
+        for o in ops:
+            if o not in self.ext_opaques: self.ext_opaques.append(o)
 
     # ---- entry
     def run(self):
@@ -388,6 +392,7 @@ class FnTranslator:
         info.has_self = bool(params) and params[0][0] == "self"
         info.monadic = self.is_result or monadic(ir)
         info.exts = self.exts
+        info.ext_opaques = self.ext_opaques
         info.ir = ir
         info.dropped = self.dropped
         info.needs_deq = self.needs_deq
@@ -436,7 +441,8 @@ class FnTranslator:
             if muts: self.selfk = "mut"
         calls = []
         def f3(e):
-            if e and e[0] == "mcall" and e[1] == ("path", ["self"]) and (self.impl, e[2]) in self.u.fi.fns: calls.append(e[2])
+            if e and e[0] == "mcall" and e[1] == ("path", ["self"]) and (self.impl, e[2]) in self.u.fi.fns \
+                    and ("self." + e[2]) not in self.u.externals: calls.append(e[2])
         walk(blk, f3)
         for m in calls:
             if (self.impl, m) == (self.impl, self.f["name"]): continue
@@ -500,7 +506,7 @@ class FnTranslator:
             if info.mut_self and info.is_result and self.selfk == "mut" and info.val_ty == self.val_ty:
                 pre = []
                 a = self.args_for(info, e[4], env, pre)
-                for x in info.exts: self.add_ext(*x)
+                for x in info.exts: self.add_ext(*x, ops=getattr(info, 'ext_opaques', ()))
                 self.callees.append(info.lean_name)
                 return self.wrap(pre, MCall(" ".join([info.lean_name] + [n for n, _ in info.exts] + ["self"] + a)))
         if e[0] in ("call", "mcall"):
@@ -646,7 +652,10 @@ class FnTranslator:
             term, t = self.expr(e, env, pre, want)
             if want is not None:
                 self.check_ty(t, want, "let at line %d" % line); t = want
-            if t == INTLIT: raise RsError("integer literal without a type (line %d)" % line)
+            if t == INTLIT:
+                if pat[0] != "pvar" or ty is not None:
+                    raise RsError("integer literal without a type (line %d)" % line)
+                return self.let_inferred(pat, e, env, rest, tail, fin, line)
             env2 = dict(env)
             lp = self.bind_pat(pat, t, env2)
             # rename the last temporary instead of an extra let
@@ -659,6 +668,42 @@ class FnTranslator:
             e = st[1]
             return self.stmt_expr(e, rest, tail, env, fin)
         raise RsError("statement outside the subset: %s" % k)
+
+    def let_inferred(self, pat, e, env, rest, tail, fin, line):
+        """`let x = <expression made of untyped integer literals>;` without annotation: the type is the one rustc
+        infers from the later uses of `x`.  The rest of the function is type-checked with `x : T` for every unsigned
+        integer type T (operands of a binary operation / arguments must have equal types here as in Rust); the
+        translation is accepted only if exactly ONE T type-checks (fail closed otherwise, e.g. when `x` is only
+        cast, where rustc would default to i32)."""
+        import copy
+        def snap():
+            return (self.n, list(self.exts), list(self.dropped), list(self.needs_deq), dict(self.local_consts),
+                    list(self.callees), copy.deepcopy(self.u.used_fields), list(self.ext_opaques))
+        def restore(s):
+            self.n, self.exts, self.dropped, self.needs_deq, self.local_consts, self.callees = \
+                s[0], list(s[1]), list(s[2]), list(s[3]), dict(s[4]), list(s[5])
+            self.u.used_fields.clear(); self.u.used_fields.update(copy.deepcopy(s[6]))
+            self.ext_opaques = list(s[7])
+        s0 = snap()
+        good = []
+        for cand in ("u64", "u32", "usize", "u16", "u8", "u128"):
+            t = ("int", cand)
+            try:
+                pre = []
+                term, t2 = self.expr(e, env, pre, t)
+                self.check_ty(t2, t, "let at line %d" % line)
+                env2 = dict(env)
+                lp = self.bind_pat(pat, t, env2)
+                pre.append(("let", lp, term))
+                ir = self.wrap(pre, self.stmts(rest, tail, env2, fin))
+                good.append((cand, ir, snap()))
+            except RsError:
+                pass
+            restore(s0)
+        if len(good) != 1:
+            raise RsError("integer literal without a type (line %d): %d unsigned types fit the later uses" % (line, len(good)))
+        restore(good[0][2])
+        return good[0][1]
 
     def bind_pat(self, pat, t, env):
         """Lean pattern text for a Rust irrefutable pattern; extends env"""
@@ -830,7 +875,10 @@ class FnTranslator:
             return
         if name == "policy_err":
             a = split_macro_args(toks, self.u.rel)
-            if a[0] != ("path", ["self"]): raise RsError("policy_err! on something else than self")
+            # receiver: `self`, or a local bound to a declared-and-dropped external such as `self.validator()` (its value
+            # is `()`: whichever validator it is, its policy filter is the external `policy_filter_err`)
+            via_local = a[0][0] == "path" and len(a[0][1]) == 1 and env.get(a[0][1][0]) == UNIT
+            if a[0] != ("path", ["self"]) and not via_local: raise RsError("policy_err! on something else than self")
             if not (self.trait_self or "self" in env): raise RsError("policy_err! without self")
             tag, t = self.expr(a[1], env, pre, ("str",))
             self.check_ty(t, ("str",), "policy_err! tag")
@@ -1296,7 +1344,7 @@ class FnTranslator:
 
     def call_translated(self, info, args_terms, env, pre, self_term=None):
         if getattr(info, "mut_params", None): raise RsError("call of a function with &mut parameters is outside the subset")
-        for x in info.exts: self.add_ext(*x)
+        for x in info.exts: self.add_ext(*x, ops=getattr(info, 'ext_opaques', ()))
         for o in info.needs_deq:
             if o not in self.needs_deq: self.needs_deq.append(o)
         self.callees.append(info.lean_name)
@@ -1348,6 +1396,8 @@ class FnTranslator:
         if segs == ["Vec", "new"] and not args:
             if want is not None and want[0] == "vec": return "[]", want, "val"
             return "[]", ("vec", ("unknown",)), "val"
+        if len(segs) >= 2 and "::".join(segs) in self.u.externals:
+            return self.call_external("::".join(segs), args, env, pre)      # declared external `Type::function`
         impl = None
         if len(segs) == 2 and segs[0] in ("Self", self.impl): impl = self.impl
         elif len(segs) != 1: raise RsError("call of %s is outside the subset" % "::".join(segs))
@@ -1361,22 +1411,48 @@ class FnTranslator:
             return self.call_translated(info, a, env, pre)
         raise RsError("call of unknown function %s (not in this file, not declared external)" % "::".join(segs))
 
-    def call_external(self, name, args, env, pre):
+    def call_external(self, name, args, env, pre, recv=None):
+        """call of a function declared under `externals` in the target list.  `name` is the plain name of a free
+        function, `Type::function` for an associated function, `self.method` for a method of the translated impl that
+        is itself outside the subset (the receiver is NOT passed: the external stands for the method of this one
+        `self`), or `OpaqueType.method` for a method of a value of an opaque type (`recv` = (term, type), passed as
+        the first argument).  A declared `Result<T, E>` is read as `Option<T>` (`Err(_)` -> `none`; only `.unwrap()`,
+        `.ok()`, `.is_ok()`, `.is_err()`, `.unwrap_or(d)` are available on it).  `"drop": True`: the call is not
+        evaluated at all and yields `()` (for a value that is only the receiver of `policy_err!`)."""
         spec = self.u.externals[name]
+        if spec.get("drop"):
+            if args: raise RsError("dropped external %s with arguments" % name)
+            self.dropped.append("%s() (declared: only used as the receiver of policy_err!)" % name)
+            return "()", UNIT, "val"
         pts = [self.u.parse_type(s, self.impl) for s in spec["params"]]
         rt = self.u.parse_type(spec["ret"], self.impl)
         if len(pts) != len(args): raise RsError("external %s arity" % name)
-        terms = []
+        terms, ltys = [], []
+        if recv is not None:
+            terms.append(recv[0] if " " not in recv[0] or recv[0].startswith("(") else "(" + recv[0] + ")")
+            ltys.append(self.u.lt(recv[1], False))
         for a, pt in zip(args, pts):
             term, t = self.expr(a, env, pre, pt)
             self.check_ty(t, pt, "argument of external %s" % name)
             terms.append(term if " " not in term or term.startswith("(") else "(" + term + ")")
-        lty = " → ".join([self.u.lt(t, False) for t in pts] + [self.u.lt(rt, False)])
-        self.add_ext("ext_" + name, lty)
-        return "(ext_%s %s)" % (name, " ".join(terms)), rt, "val"
+        if rt[0] == "result":
+            rt = ("tryres", rt[1])
+            rl = "(Option %s)" % self.u.lt(rt[1], False)
+        else:
+            rl = self.u.lt(rt, False)
+        lty = " → ".join(ltys + [self.u.lt(t, False) for t in pts] + [rl])
+        ident = "ext_" + re.sub(r"\W+", "_", name)
+        ops = []
+        for t in ([recv[1]] if recv is not None else []) + pts + [rt if rt[0] != "tryres" else rt[1]]:
+            self.u.opaques_of(t, ops)
+        self.add_ext(ident, lty, ops)
+        if not terms: return ident, rt, "val"
+        return "(%s %s)" % (ident, " ".join(terms)), rt, "val"
 
     def mcall(self, e, env, pre, want):
         _, recv, m, turbo, args, line = e
+        if recv == ("path", ["self"]) and ("self." + m) in self.u.externals:
+            return self.call_external("self." + m, args, env, pre)
         # methods of the translated impl on self
         if recv == ("path", ["self"]) and self.impl and (self.impl, m) in self.u.fi.fns and m not in ("clone",):
             info = self.u.get_fn(self.impl, m)
@@ -1386,7 +1462,7 @@ class FnTranslator:
                 if info.is_result:
                     v = self.fresh("r")
                     call = " ".join([info.lean_name] + [n for n, _ in info.exts] + ["self"] + a)
-                    for x in info.exts: self.add_ext(*x)
+                    for x in info.exts: self.add_ext(*x, ops=getattr(info, 'ext_opaques', ()))
                     self.callees.append(info.lean_name)
                     if not self.is_result: raise RsError("Result method called outside a Result function")
                     if info.val_ty == UNIT:
@@ -1446,6 +1522,8 @@ class FnTranslator:
         if k == "map" and m == "contains_key" and len(args) == 1:
             kk, kt = self.expr(args[0], env, pre, ("str",)); self.check_ty(kt, ("str",), "map key")
             return "(Rs.smapGet %s %s).isSome" % (base, kk), BOOL, "val"
+        if k == "opaque" and (bt[1] + "." + m) in self.u.externals:
+            return self.call_external(bt[1] + "." + m, args, env, pre, recv=(base, bt))
         raise RsError("method .%s on %r is outside the subset (line %d)" % (m, bt, line))
 
     def int_method(self, base, bt, m, args, env, pre, want):
@@ -1586,6 +1664,8 @@ def fn_lean_lines(info):
     ops = []
     for _, t in info.params: u.opaques_of(t, ops)
     u.opaques_of(info.out_ty, ops)
+    for o in getattr(info, "ext_opaques", ()):
+        if o not in ops: ops.append(o)
     sig = ""
     if ops: sig += " {%s : Type}" % " ".join(ops)
     for o in info.needs_deq: sig += " [DecidableEq %s]" % o
